@@ -90,4 +90,7 @@ CHECKS = {
     "C20": dict(engine=_A, technique="runtime monitoring: real Directory/Discovery computations over the harness-owned transport, generated valid histories interleaved with random FIFO deliveries, convergence oracle after drain (ground truth folded from the messages the directory handled)",
                 text="Held (except the listed known finding) on the executions observed: after draining, the directory equals the fold of the publish messages it handled, every instance's view of each agent/computation/replica it is still subscribed to equals the directory's, callback events fold to the directory's final state, one-shot callbacks fired at most once and no handler or API call raised.",
                 note="Valid API use per the reference model in pv/checks/c20.py (agents register first and leave last, one owner per computation, replicas only of known computations, no mix of callback / callback-less subscriptions on one item); single discovery priority => per-channel FIFO."),
+    "C25": dict(engine=_A, technique="runtime monitoring: real UCSReplication/Discovery/Directory computations over the harness-owned transport; contract on _accept_replica evaluating the acceptance rule independently, replication_done reports and final placement oracle",
+                text="Held on the executions observed: every agent reported replication done within the step budget; reported hosts are distinct, never the owner, at most k, hold the replica and are listed by the directory; every _accept_replica call satisfied remaining capacity >= footprint + worst case over <= k-1 owners of the replicas held, incl. thousands of acceptances by agents already holding several replicas.",
+                note="Stub agents (name, AgentDef, computations() with footprints) in one process; symmetric routes, one global default route; k in 1..3."),
 }
